@@ -35,6 +35,12 @@ package main
 // filled packets.  charged_ge_actual is also evaluated handle by handle right
 // after allocation (every bucket, reported or not) against the vendored encoder.
 //
+// Several reporters in one process: reporters of the other / the same / both
+// protocols are created before the reporter of the case and stay open; half of
+// these cases run in a process of their own (the harness re-executes itself in
+// replay mode), so that the reporter created first is the first one the process
+// ever creates.  Every predicate applies to the reporter of the case.
+//
 // Pool turnover stream: a few handles are allocated early, then more distinct
 // tag sets than the reporter's tag-slice pool holds (DefaultMaxQueueSize) are
 // allocated on the same reporter and never used, then late handles; early and
@@ -58,11 +64,13 @@ package main
 
 import (
 	"bytes"
+	"context"
 	"encoding/json"
 	"fmt"
 	"math"
 	"net"
 	"os"
+	"os/exec"
 	"reflect"
 	"sort"
 	"strings"
@@ -107,6 +115,12 @@ type c12Case struct {
 	// pool turnover: before handle number turnover_at is allocated, `turnover` further counters with
 	// distinct tag sets (eight tags with values of turnover_len bytes) are allocated on the same
 	// reporter and never used: a long allocation history that cycles the reporter's pools and caches
+	// other reporters of the same process: reporters with these protocols (0 Compact, 1 Binary) are
+	// created, in this order, BEFORE the reporter of the case and stay open while it runs; with
+	// fresh_process the whole case runs in a process of its own (the harness re-executes itself in
+	// replay mode), so that the first of them is the first reporter the process ever creates
+	Before      []int `json:"reporters_before,omitempty"`
+	Fresh       bool  `json:"fresh_process,omitempty"`
 	Turnover    int `json:"turnover,omitempty"`
 	TurnoverAt  int `json:"turnover_at,omitempty"`
 	TurnoverLen int `json:"turnover_len,omitempty"`
@@ -548,6 +562,45 @@ func c12Run(c *c12Case, restricted, final bool) (res c12Result) {
 	}
 	defer sink.close()
 	addr := sink.addr.String()
+	if len(c.Before) > 0 {
+		pname := map[int]string{0: "Compact", 1: "Binary"}
+		var names []string
+		for k, bp := range c.Before {
+			p := m3.Compact
+			if bp == 1 {
+				p = m3.Binary
+			}
+			br, err := m3.NewReporter(m3.Options{HostPorts: []string{addr}, Service: "before", Env: "e", Protocol: p,
+				CommonTags: map[string]string{"reporter": fmt.Sprintf("before%d", k)}})
+			if err != nil {
+				res.Rejected = "harness: reporter before the case: " + err.Error()
+				return
+			}
+			br.AllocateCounter("before.counter", map[string]string{"k": "v"}) // allocated, never reported: it sends nothing
+			defer br.Close()
+			names = append(names, pname[bp])
+		}
+		defer func() {
+			if res.Fail == "" {
+				return
+			}
+			longest := 0
+			for _, d := range res.Dgrams {
+				if d.Len > longest {
+					longest = d.Len
+				}
+			}
+			extra := ""
+			if longest > int(res.MaxPkt) && res.MaxPkt > 0 {
+				extra = fmt.Sprintf("; longest datagram of this reporter: %d bytes for MaxPacketSizeBytes %d", longest, res.MaxPkt)
+			}
+			where := "in this process"
+			if c.Fresh {
+				where = "in this process (a fresh one: they are the first reporters it ever created)"
+			}
+			res.Fail = fmt.Sprintf("reporter #%d (%s), created after %s reporter(s) %s: %s%s", len(c.Before)+1, pname[c.Proto], strings.Join(names, ", "), where, res.Fail, extra)
+		}()
+	}
 	for _, op := range c.Ops {
 		if op.H <= -2 {
 			res.Fault = true
@@ -1382,6 +1435,78 @@ func c12GenConc(r *Rng, i int, thorough bool) c12Case {
 	return c
 }
 
+// ---------------------------------------------------------------- several reporters in one process
+
+// c12RunFresh runs the case in a process of its own: the harness binary in replay mode.  It
+// returns the failing predicate and message of the child ("" = the case passed there).
+func c12RunFresh(c *c12Case) (pred, what, harnessErr string) {
+	f, err := os.CreateTemp("", "c12-fresh-*.json")
+	if err != nil {
+		return "", "", err.Error()
+	}
+	defer os.Remove(f.Name())
+	json.NewEncoder(f).Encode(map[string]interface{}{"case": c})
+	f.Close()
+	cctx, cancel := context.WithTimeout(context.Background(), 180*time.Second)
+	defer cancel()
+	out, err := exec.CommandContext(cctx, os.Args[0], "replay", "C12", "--file", f.Name()).CombinedOutput()
+	if cctx.Err() != nil {
+		return "", "", "child process timed out"
+	}
+	text := string(out)
+	if strings.Contains(text, "REPLAY property=C12 passes") {
+		return "", "", ""
+	}
+	if i := strings.LastIndex(text, "REPLAY property=C12 FAILS: "); i >= 0 {
+		what = strings.TrimSpace(text[i+len("REPLAY property=C12 FAILS: "):])
+		var r struct {
+			Failures []struct {
+				Predicate string `json:"predicate"`
+			} `json:"failures"`
+		}
+		if json.Unmarshal([]byte(text[:i]), &r) == nil && len(r.Failures) > 0 {
+			pred = r.Failures[0].Predicate
+		}
+		if pred == "" {
+			pred = "datagram_le_max"
+		}
+		return pred, what, ""
+	}
+	tail := text
+	if len(tail) > 600 {
+		tail = tail[len(tail)-600:]
+	}
+	return "no_drop_no_dup", fmt.Sprintf("the process running the case ended without a verdict (%v): %s", err, tail), ""
+}
+
+// c12GenPair: an ordinary case whose reporter is not the first one of its process: reporters of
+// the other (or the same, or both) protocol are created before it and stay open.  The property
+// holds for "Compact and Binary protocols" of every reporter; a process that talks to two
+// collectors has one reporter per collector.
+func c12GenPair(r *Rng, i int, fresh bool) c12Case {
+	var c c12Case
+	for k := 0; k < 20; k++ {
+		c = c12Gen(r, i, false, false)
+		if c.FitJ > 0 && len(c.Ops) >= 12 {
+			break
+		}
+	}
+	c.Proto = i % 2
+	switch r.Intn(4) {
+	case 0, 1:
+		c.Before = []int{1 - c.Proto}
+	case 2:
+		c.Before = []int{1 - c.Proto, c.Proto}
+	default:
+		c.Before = []int{c.Proto, 1 - c.Proto}
+	}
+	if i < 2 {
+		c.Before = []int{1 - c.Proto}
+	}
+	c.Fresh = fresh
+	return c
+}
+
 // ---------------------------------------------------------------- pool turnover
 
 // c12GenTurnover: a long allocation history.  A few handles are allocated early; then more
@@ -1566,11 +1691,25 @@ var c12Witnesses = []c12Case{
 func init() {
 	props["C12"] = func(ctx *Ctx) {
 		ctx.Header("M3BatchCorr")
-		ctx.Res.Rule = "case = (protocol, common tags, bucket tag names, handles of all kinds with names 1..600 bytes and 0..8 tags, a history of reports with values at the encoding extremes and Flush() calls, MaxPacketSizeBytes absolute or fitted to the charges of the first j reports +-1) run on a real m3 reporter over loopback UDP; plus a stream in which the handles (histograms with tag sets of very different size) are allocated at the same time from one goroutine each, plus a pool-turnover stream (more distinct tag sets than the tag-slice pool holds allocated between early and late handles), plus a fault stream in which the loopback sink is closed and re-opened on the same port between rounds of reports (failed sends, then normal traffic); non-trivial = at least one datagram; distinct by case hash"
+		ctx.Res.Rule = "case = (protocol, common tags, bucket tag names, handles of all kinds with names 1..600 bytes and 0..8 tags, a history of reports with values at the encoding extremes and Flush() calls, MaxPacketSizeBytes absolute or fitted to the charges of the first j reports +-1) run on a real m3 reporter over loopback UDP; plus a stream in which the handles (histograms with tag sets of very different size) are allocated at the same time from one goroutine each, plus a stream whose reporter is created after reporters of other protocols in the same (partly a fresh) process, plus a pool-turnover stream (more distinct tag sets than the tag-slice pool holds allocated between early and late handles), plus a fault stream in which the loopback sink is closed and re-opened on the same port between rounds of reports (failed sends, then normal traffic); non-trivial = at least one datagram; distinct by case hash"
 		retried, lost := 0, 0
 		exact, dgrams, atMax := 0, 0, 0
 		faults, faultsSeen, faultDelivered, faultEmpty := 0, 0, 0, 0
 		one := func(c *c12Case, witness, restricted bool) bool {
+			if c.Fresh && ctx.Replay == nil {
+				pred, what, herr := c12RunFresh(c)
+				cls := map[int]string{0: "compact", 1: "binary"}[c.Proto] + "/after-other-reporters/fresh-process"
+				if herr != "" {
+					ctx.Note("fresh-process case not run: %s", herr)
+					cls += "/not-run"
+				}
+				ctx.Case(c, "", cls, hashOf(c))
+				if what != "" {
+					ctx.Fail(pred, what, c, nil)
+					return false
+				}
+				return true
+			}
 			res := c12Run(c, restricted, false)
 			if res.Loss {
 				retried++
@@ -1602,6 +1741,9 @@ func init() {
 			}
 			if c.Turnover > 0 {
 				cls += "/pool-turnover"
+			}
+			if len(c.Before) > 0 {
+				cls += "/after-other-reporters"
 			}
 			if res.Fault {
 				cls = proto + "/fault"
@@ -1719,6 +1861,18 @@ func init() {
 			crng := ctx.R.Fork()
 			for i, nc := 0, ctx.N(24, 300); i < nc; i++ {
 				c := c12GenConc(crng, i, ctx.Thorough())
+				one(&c, false, false)
+			}
+		}
+		// several reporters in one process
+		if !restricted {
+			prng := ctx.R.Fork()
+			for i, np := 0, ctx.N(6, 40); i < np; i++ {
+				c := c12GenPair(prng, i, true)
+				one(&c, false, false)
+			}
+			for i, np := 0, ctx.N(6, 60); i < np; i++ {
+				c := c12GenPair(prng, i, false)
 				one(&c, false, false)
 			}
 		}
